@@ -31,8 +31,15 @@ class PathAbort(BaseException):
         self.reason = reason
 
 
-class ReplayDiverged(Exception):
-    pass
+class Unsupported(PathAbort):
+    """an operation the symbolic proxies cannot model: the path is cut (counted under paths_cut), never reported as a library failure"""
+
+    def __init__(self, what):
+        super().__init__("unsupported: " + what)
+
+
+class ReplayDiverged(BaseException):
+    """a concrete replay asked for an input the model has no value for (BaseException: library code / guard() must not swallow it)"""
 
 
 def _ctx():
@@ -232,7 +239,7 @@ class SymInt:
         if isinstance(o, SymInt):
             o = o.concrete()
         if not isinstance(o, int) or o <= 0:
-            raise TypeError("symx: // and % need a positive concrete divisor")
+            raise Unsupported("// and % by a symbolic or non-positive divisor")
         return o
 
     def __floordiv__(self, o):
@@ -517,6 +524,34 @@ class SymReal:
 
     def __float__(self):
         return float(self.concrete())
+
+    # -- conversions to int: a fresh integer k with k <= x < k+1 (floor); trunc/ceil derived by branching on the sign / on x == k
+    def __floor__(self):
+        if self.is_const():
+            import math as _m
+
+            return _m.floor(self.const_value())
+        c = _ctx()
+        k = c.int(c.uniq("floor"))
+        c.assume(all_([SymReal.of(k) <= self, self < SymReal.of(k) + 1]))
+        return k
+
+    def __ceil__(self):
+        return -((-self).__floor__())
+
+    def __trunc__(self):
+        if self.is_const():
+            return int(self.const_value())
+        return self.__floor__() if self >= 0 else self.__ceil__()
+
+    def __int__(self):
+        k = self.__trunc__()
+        return k if isinstance(k, int) else k.concrete()  # int() insists on a real int: fork over the values
+
+    def __round__(self, nd=None):
+        if nd is None:
+            raise Unsupported("round() of a symbolic real")
+        return round(float(self.concrete()), nd)
 
     def __hash__(self):
         return hash(float(self.concrete()))
@@ -986,6 +1021,14 @@ class Ctx:
 
     def real(self, name, lo=None, hi=None, lo_strict=False, hi_strict=False):
         if self.mode == "conc":
+            if self._enum is not None and lo is not None and hi is not None:
+                # inside exists(): a bounded real draw is enumerated over the midpoints of a 64-cell grid (bounded ints: every value)
+                i = self._enum_pos
+                self._enum_pos += 1
+                if i >= len(self._enum):
+                    self._enum.append([0, 63, 0])
+                x = Fraction(lo) + (Fraction(hi) - Fraction(lo)) * Fraction(2 * self._enum[i][2] + 1, 128)
+                return ExactReal(x) if getattr(self, "exact_reals", False) else float(x)
             if name not in self.values:
                 raise ReplayDiverged(f"no value for {name}")
             x = self.values[name]
@@ -1335,15 +1378,10 @@ class Ctx:
         conc: brute force over the bounded integer draws the thunk asks for."""
         if self.mode == "sym":
             t = time.time()
-            c = thunk()
-            if isinstance(c, bool):
-                st = "witness" if c else "sat"
-                m = self.get_model() if not c else None
-            else:
-                r, m = self._check(_b(c))
-                st = "witness" if r == "sat" else ("sat" if r == "unsat" else "unknown")
-                if st == "sat":
-                    m = self.get_model()
+            st = self._exists_sym(thunk)
+            m = None
+            if st == "sat":
+                m = self.get_model()
             self.obligations.append((label, st, time.time() - t))
             if st == "sat":
                 self.violations.append(Violation(label, _fmt(detail), self.model_values(m) if m is not None else None, sig=sig))
@@ -1366,10 +1404,48 @@ class Ctx:
                 digits[-1][2] += 1
         finally:
             self._enum = None
+            del self.rng_log[n0:]  # draws made inside the thunk are local (as in the symbolic run)
         self.obligations.append((label, "ok" if ok else "FAILED", 0.0))
         if not ok:
             self.failed_labels.append((label, sig or label, _fmt(detail)))
         return ok
+
+    def _exists_sym(self, thunk, limit=400):
+        """'witness' if some resolution of the draws / forks made inside the (side-effect free) thunk makes it true, 'sat' if none does,
+        'unknown' otherwise.  Decisions taken inside the thunk are local: every alternative is explored here and nothing of it stays on the path."""
+        t0, p0, c0, n0 = len(self.trace), len(self.pc), len(self.children), len(self.rng_log)
+        assert self.pos == t0, "symx: decision counter out of step"
+        saved = (self.prefix, self.model, self.model_ok, set(self.vars), self.draws, len(self.observations))
+        pending, tries, unknown, found = [[]], 0, False, False
+        while pending and tries < limit and not found:
+            loc = pending.pop()
+            tries += 1
+            self.solver.push()
+            self.prefix = list(self.trace) + loc
+            try:
+                c = thunk()
+                pending.extend(k[t0:] for k in self.children[c0:])
+                if isinstance(c, bool):
+                    found = c
+                else:
+                    r, _ = self._check(_b(c))
+                    found = r == "sat"
+                    unknown = unknown or r == "unknown"
+            except PathAbort as a:
+                if a.reason not in ("infeasible", "exhausted", "precondition false"):
+                    unknown = True
+                pending.extend(k[t0:] for k in self.children[c0:])
+            finally:
+                self.solver.pop()
+                del self.trace[t0:], self.pc[p0:], self.children[c0:], self.rng_log[n0:], self.observations[saved[5]:]
+                self.pos = t0
+                self.prefix, self.model, self.model_ok = saved[0], saved[1], saved[2]
+                for k in [k for k in self.vars if k not in saved[3]]:
+                    del self.vars[k]
+                self.draws = saved[4]
+        if found:
+            return "witness"
+        return "unknown" if (unknown or pending) else "sat"
 
     def guard(self, label, f, *a, **k):
         """run library code; an exception escaping it is a violation of `label` on this path"""
